@@ -1299,7 +1299,19 @@ fn pair_history(case: &PairCase, ctx: &mut CaseCtx, w: &mut PairWorld) -> Outcom
             }
             w.emitted(x)?;
             let received = w.models[1 - x].snd_sent;
-            if received > 0 {
+            if received > 0 && w.models[x].rcv_adv <= received && w.models[1 - x].st.resets > 0 {
+                // The peer reset a stream: bytes it had charged to the connection limit may never
+                // arrive. RFC 9000 §4.5 has the receiver charge the final size of RESET_STREAM (and
+                // slide its window); this stack does not (listed finding), so the window stays put.
+                ctx.known.push(Fail::new(
+                    SIG_FINAL_UNCHARGED,
+                    format!(
+                        "{}: the peer has charged {received} bytes (some on a stream it reset), the advertised MAX_DATA is still {}: the final size of a reset stream never slides the connection window",
+                        w.eps[x].role,
+                        w.models[x].rcv_adv
+                    ),
+                ));
+            } else if received > 0 {
                 ensure!(
                     w.models[x].rcv_adv > received,
                     "conn-window-stuck",
